@@ -103,23 +103,21 @@ Theorem C20_cb_pipeline_text : forall p h,
 Proof. intros p h. exact (conj (part_items_text p) (lits_text h)). Qed.
 Print Assumptions C20_cb_pipeline_text.
 
-(* ---- every url-filter emitted by into_content_blocking is in the subset.  Hypotheses: the parser
-   invariant "no '*' inside the hostname" (host_ok) and the carve-out of the finding class
-   "pattern is only a separator" (empty_filter_class), refuted below. *)
+(* ---- every url-filter emitted by into_content_blocking is in the subset (in particular never the
+   empty text: since fix 26d3d76 an empty filter is replaced by ".*"; the former finding
+   C20_empty_url_filter is now the Example sep_only_rule_match_all in C20_Proofs.v).
+   Hypothesis: the parser invariant "no '*' inside the hostname" (host_ok). *)
 Theorem C20_cb_filter_subset : forall norm idna nets coss rules used r,
   into_content_blocking norm idna true nets coss = Ok (Some (rules, used)) ->
-  Forall (fun nf => host_ok nf = true /\ empty_filter_class nf = false) nets ->
+  Forall (fun nf => host_ok nf = true) nets ->
   In r rules -> safari_ok (print_regex (r_url r)) = true.
 Proof. exact into_cb_subset. Qed.
 Print Assumptions C20_cb_filter_subset.
 
-(* finding: `*^` (as parsed: mask 466943, filter "^") is exported with the empty url-filter *)
-Theorem C20_cb_filter_subset_refuted : forall norm,
-  host_ok sep_only_rule = true /\ lost_scheme_class sep_only_rule = false /\ empty_filter_class sep_only_rule = true /\
-  exists r, convert_network norm sep_only_rule = Ok (COk [r]) /\ print_regex (r_url r) = [] /\
-            safari_ok (print_regex (r_url r)) = false.
-Proof. exact cb_subset_refuted. Qed.
-Print Assumptions C20_cb_filter_subset_refuted.
+(* the url-filter of a network rule is never empty, whatever the rule *)
+Theorem C20_cb_filter_nonempty : forall nf u, url_filter_final nf = Ok (COk u) -> print_regex u <> [].
+Proof. exact url_filter_nonempty. Qed.
+Print Assumptions C20_cb_filter_nonempty.
 
 (* non-ASCII patterns and hostnames never produce output *)
 Theorem C20_cb_non_ascii_rejected : forall norm nf rules,
@@ -129,16 +127,22 @@ Theorem C20_cb_non_ascii_rejected : forall norm nf rules,
 Proof. exact convert_network_rejects_non_ascii. Qed.
 Print Assumptions C20_cb_non_ascii_rejected.
 
-(* ---- no panic.  Hypotheses are parser invariants: debug rules carry their raw line; a domain
+(* ---- no panic.  Hypotheses are parser invariants only: debug rules carry their raw line; a domain
    option implies a '$' in the raw line (dollar_ok, justified by C20_cb_reparse_dollar); cosmetic
-   raw lines contain '#' and have a non-empty selector list (cos_ok); and the carve-out of the
-   finding class "all scheme bits lost" (lost_scheme_class), refuted below. *)
+   raw lines contain '#' and have a non-empty selector list (cos_ok).  Since fix 26d3d76 a rule
+   that lost all scheme bits is a conversion error (Example ws_neg_rule_skipped in C20_Proofs.v);
+   the former carve-out C20_scheme_bits_lost_unreachable is gone. *)
 Theorem C20_cb_total : forall norm idna debug nets coss,
-  Forall (fun nf => nf_raw nf <> None /\ lost_scheme_class nf = false /\ dollar_ok nf = true) nets ->
+  Forall (fun nf => nf_raw nf <> None /\ dollar_ok nf = true) nets ->
   Forall (fun cf => cf_raw cf <> None /\ cos_ok cf = true) coss ->
   is_ok (into_content_blocking norm idna debug nets coss) = true.
 Proof. exact into_cb_total_concrete. Qed.
 Print Assumptions C20_cb_total.
+
+(* the network converter alone needs only the '$' invariant *)
+Theorem C20_cb_total_network : forall norm nf, dollar_ok nf = true -> is_ok (convert_network norm nf) = true.
+Proof. exact convert_network_total. Qed.
+Print Assumptions C20_cb_total_network.
 
 (* the parser takes its options after the LAST '$', the converter unwraps the FIRST '$': whenever
    the parser saw options, the converter's unwrap succeeds *)
@@ -146,14 +150,6 @@ Theorem C20_cb_reparse_dollar : forall line opts,
   parser_options line = Some opts -> memN DOLLAR line = true /\ find_byte DOLLAR line <> None.
 Proof. exact parser_options_dollar. Qed.
 Print Assumptions C20_cb_reparse_dollar.
-
-(* finding: `|ws://$~websocket` (as parsed: mask 198399, empty filter, no hostname) panics *)
-Theorem C20_cb_total_refuted : forall norm,
-  dollar_ok ws_neg_rule = true /\ host_ok ws_neg_rule = true /\ lost_scheme_class ws_neg_rule = true /\
-  convert_network norm ws_neg_rule = Panic UNREACHABLE /\
-  into_content_blocking norm norm true [ws_neg_rule] [] = Panic UNREACHABLE.
-Proof. exact cb_total_refuted. Qed.
-Print Assumptions C20_cb_total_refuted.
 
 (* ---- inclusion for plain patterns (no '*', no '^').
    (a) no hostname: p, |p, p|, |p| — whenever the pattern occurs in the URL (at the start / end when
